@@ -41,7 +41,7 @@ def run(tier):
     from .. import traces
     from . import C01
     specs = [dict(sp, data=("line" if k % 2 == 0 else sp["data"]), K=max(sp["K"], 3)) for k, sp in enumerate(C01.scale_specs(tier, common.seed() + 9)[: (60 if tier == "quick" else 600)])]
-    trs = [t for t in common.pmap(C01.record_scale_trace, specs, chunksize=4) if t["ev"] and t["c"]["budget"] <= 64]
+    trs = [t for t in common.pmap(C01.record_scale_trace, specs, chunksize=4) if t["ev"] and t["c"]["budget"] <= 1024]
     vd, tres = traces.validate("KernelTrace", f"{PID}_ktrace", trs)
     V.model(tres, "KernelTrace.tla (scatter clauses at scale)")
     V.add("traces_validated_against_impl", len(trs))
